@@ -204,6 +204,25 @@ fn shard(seed: u64, shard: u64, n: u64) -> Tally {
         }
         signed.sort();
         signed.dedup();
+        if violate && !signed.is_empty() && r.chance(1, 3) {
+            // repeating a listed name does not make up for a missing one: entries repeated until the list is as long as
+            // the set of request headers (names, or lines), or one off, or a few longer
+            let lines: usize = l.extra.iter().map(|(_, v)| v.len().max(1)).sum::<usize>() + present.len().saturating_sub(l.extra.len());
+            let target = match r.below(5) {
+                0 | 1 => present.len(),
+                2 => lines,
+                3 => present.len() + 1,
+                _ => signed.len() + 1 + r.usize_below(3),
+            };
+            let real: Vec<String> = signed.iter().filter(|s| present.contains(s)).cloned().collect();
+            if !real.is_empty() {
+                while signed.len() < target.min(signed.len() + 40) {
+                    signed.push(real[r.usize_below(real.len())].clone());
+                }
+                signed.sort();
+                t.count("violated_with_repeated_entries");
+            }
+        }
         // an always-required header that is absent from the request cannot be signed meaningfully; keep those cases
         // out of the satisfied set (the reference model is silent on signed-but-absent headers)
         l.signed = signed.clone();
